@@ -170,6 +170,15 @@ func (m DocComposite) deleteWithPrefix(ctx context.Context, key keys.DataStoreKe
 		return err
 	}
 
+	// The keys are collected first and moved once the iterator has been closed, as not every
+	// store supports writing to the range that is being iterated.
+	type entry struct {
+		key     keys.DataStoreKey
+		value   []byte
+		isValue bool
+	}
+	entries := []entry{}
+
 	for {
 		hasNext, err := iter.Next()
 		if err != nil {
@@ -184,23 +193,35 @@ func (m DocComposite) deleteWithPrefix(ctx context.Context, key keys.DataStoreKe
 			return errors.Join(err, iter.Close())
 		}
 
-		if dsKey.InstanceType == keys.ValueKey {
+		e := entry{key: dsKey, isValue: dsKey.InstanceType == keys.ValueKey}
+		if e.isValue {
 			value, err := iter.Value()
 			if err != nil {
 				return errors.Join(err, iter.Close())
 			}
+			e.value = append([]byte{}, value...)
+		}
+		entries = append(entries, e)
+	}
 
-			err = m.store.Set(ctx, dsKey.WithDeletedFlag().Bytes(), value)
+	err = iter.Close()
+	if err != nil {
+		return err
+	}
+
+	for _, e := range entries {
+		if e.isValue {
+			err = m.store.Set(ctx, e.key.WithDeletedFlag().Bytes(), e.value)
 			if err != nil {
-				return errors.Join(err, iter.Close())
+				return err
 			}
 		}
 
-		err = m.store.Delete(ctx, dsKey.Bytes())
+		err = m.store.Delete(ctx, e.key.Bytes())
 		if err != nil {
-			return errors.Join(err, iter.Close())
+			return err
 		}
 	}
 
-	return iter.Close()
+	return nil
 }
